@@ -47,6 +47,52 @@ class WFact:
         return f'W{self.path} conv={self.conv} src={self.src} cond={self.conditional}/{self.guard}'
 
 
+LOSSY_FUNCS = {'round', 'floor', 'ceil', 'trunc', 'abs'}
+LOSSY_METHODS = {'lower', 'upper', 'strip', 'lstrip', 'rstrip', 'title', 'capitalize', 'casefold'}
+
+
+def lossy_op(v):
+    """a many-to-one operation applied to a field value on its way into the serialised form
+    (walks down wrappers str(..) / float(..) / int(..)): -> description or None."""
+    cur = v
+    for _ in range(6):
+        if isinstance(cur, ast.Call) and isinstance(cur.func, ast.Name):
+            if cur.func.id in LOSSY_FUNCS and cur.args:
+                return f'{cur.func.id}()'
+            if cur.func.id in ('min', 'max') and len(cur.args) >= 2:
+                return f'{cur.func.id}() clamp'
+            if cur.func.id in ('str', 'float', 'int', 'bool', 'repr') and len(cur.args) == 1:
+                cur = cur.args[0]
+                continue
+            return None
+        if isinstance(cur, ast.Call) and isinstance(cur.func, ast.Attribute):
+            if isinstance(cur.func.value, ast.Name) and cur.func.value.id == 'math' and cur.func.attr in LOSSY_FUNCS:
+                return f'math.{cur.func.attr}()'
+            if cur.func.attr in LOSSY_METHODS:
+                return f'.{cur.func.attr}()'
+            if cur.func.attr == 'format' and isinstance(cur.func.value, ast.Constant) and \
+                    isinstance(cur.func.value.value, str) and '.' in cur.func.value.value and ':' in cur.func.value.value:
+                return 'format() with a precision'
+            return None
+        if isinstance(cur, ast.BinOp) and isinstance(cur.op, ast.Mod) and isinstance(cur.left, ast.Constant) \
+                and isinstance(cur.left.value, str):
+            import re as _re
+            if _re.search(r'%\.\d+[fge]|%d', cur.left.value) and not isinstance(cur.right, ast.Tuple):
+                return f"'{cur.left.value}' % formatting"
+            return None
+        if isinstance(cur, ast.JoinedStr) and len(cur.values) == 1 and isinstance(cur.values[0], ast.FormattedValue):
+            fv = cur.values[0]
+            if fv.format_spec is not None and '.' in ast.unparse(fv.format_spec):
+                return 'f-string with a precision'
+            cur = fv.value
+            continue
+        if isinstance(cur, ast.Subscript) and isinstance(cur.slice, ast.Slice) and \
+                (cur.slice.lower is not None or cur.slice.upper is not None):
+            return 'slice'
+        return None
+    return None
+
+
 def classify_value(v, func: Func):
     """-> (conversion, source field path text or None)"""
     selfn = func.self_name
@@ -64,6 +110,10 @@ def classify_value(v, func: Func):
 
     if v is None:
         return ('none', None)
+    lo = lossy_op(v)
+    if lo is not None:
+        srcs = [src_of(x) for x in ast.walk(v) if isinstance(x, ast.Attribute)]
+        return ('lossy:' + lo, next((x for x in srcs if x), None))
     if isinstance(v, ast.Call) and isinstance(v.func, ast.Name) and len(v.args) == 1 \
             and v.func.id in ('str', 'int', 'float', 'bool', 'list', 'dict', 'sorted', 'tuple'):
         inner = v.args[0]
